@@ -1,5 +1,5 @@
 (* C05 — proofs about Model/PkgAuth.v against Spec/PkgAuthSpec.v. *)
-From Apko Require Import Base.Prelude Model.PkgAuth Spec.PkgAuthSpec.
+From Apko Require Import Base.Prelude Generated.C05Sum Model.PkgAuth Spec.PkgAuthSpec.
 Open Scope string_scope. Open Scope list_scope.
 
 Lemma bytes_eqb_eq a b : bytes_eqb a b = true <-> a = b.
@@ -1054,3 +1054,70 @@ Proof.
     + exists g. pose proof (data_section_incl _ _ Ig) as I. split; [exact I|]. split; [exact Kg|]. split; [exact Bg|]. apply Fok. rewrite <- Ef. exact I.
   - exists fs. auto.
 Qed.
+
+(* ---- checksumFromHeader ------------------------------------------------------------------ *)
+Lemma hexdig_nib n : (n < 16)%N -> hexdig (nib n) = Some n.
+Proof.
+  intro H.
+  assert (n = 0 \/ n = 1 \/ n = 2 \/ n = 3 \/ n = 4 \/ n = 5 \/ n = 6 \/ n = 7 \/ n = 8 \/ n = 9 \/ n = 10 \/
+          n = 11 \/ n = 12 \/ n = 13 \/ n = 14 \/ n = 15)%N as C by lia.
+  repeat (destruct C as [->|C]; [reflexivity|]). subst; reflexivity.
+Qed.
+
+(* hex.DecodeString inverts hex.EncodeToString on every byte string *)
+Lemma unhex_hex : forall d, (forall x, In x d -> (x < 256)%N) -> unhex (hex d) = Some d.
+Proof.
+  induction d as [|x d IH]; intro H; [reflexivity|]. cbn [hex unhex].
+  assert (x < 256)%N as Hx by (apply H; left; reflexivity).
+  rewrite (hexdig_nib (x / 16)) by (apply N.div_lt_upper_bound; lia).
+  rewrite (hexdig_nib (x mod 16)) by (apply N.mod_lt; lia).
+  rewrite IH by (intros y Hy; apply H; right; exact Hy).
+  rewrite <- (N.div_mod x 16) by lia. reflexivity.
+Qed.
+
+Lemma hex_not_b64_form d : String.prefix checksum_b64_prefix (hex d) = false.
+Proof.
+  destruct d as [|x d]; [reflexivity|]. unfold checksum_b64_prefix. simpl hex. cbn [String.prefix].
+  assert (nib (x / 16) <> "Q"%char) as NQ.
+  { unfold nib. destruct (x / 16)%N as [|p]; [discriminate|].
+    do 4 (destruct p as [p|p|]; try discriminate). }
+  destruct (Ascii.ascii_dec "Q"%char (nib (x / 16))) as [E|E]; [exfalso; apply NQ; symmetry; exact E | reflexivity].
+Qed.
+
+Section ChecksumFromHeader.
+  Variable b64 : string -> option (list N).
+  Notation checksum_from_header := (checksum_from_header b64).
+
+  (* a header without the record (no PAX records at all, or none under that key) has no
+     checksum: not an error, not a match *)
+  Lemma checksum_absent recs :
+    (forall k v, In (k, v) recs -> k <> pax_checksum_key) -> checksum_from_header recs = SumNone.
+  Proof.
+    intro H. unfold PkgAuth.checksum_from_header.
+    destruct (assoc_s pax_checksum_key recs) as [v|] eqn:A; [|reflexivity].
+    apply assoc_s_in in A. exfalso. exact (H _ _ A eq_refl).
+  Qed.
+
+  (* the digest handed on is exactly the decoded value of that record: base64 of what follows
+     the prefix, or hex of the whole value; nothing else of the header takes part *)
+  Lemma checksum_decoded recs d :
+    checksum_from_header recs = SumSome d ->
+    exists v, assoc_s pax_checksum_key recs = Some v /\
+      ((String.prefix checksum_b64_prefix v = true /\ b64 (drop_prefix checksum_b64_prefix v) = Some d) \/
+       (String.prefix checksum_b64_prefix v = false /\ unhex v = Some d)).
+  Proof.
+    unfold PkgAuth.checksum_from_header. destruct (assoc_s pax_checksum_key recs) as [v|]; [|discriminate].
+    intro H. exists v. split; [reflexivity|].
+    destruct (String.prefix checksum_b64_prefix v).
+    - left. split; [reflexivity|]. destruct (b64 (drop_prefix checksum_b64_prefix v)); [inversion H; reflexivity | discriminate].
+    - right. split; [reflexivity|]. destruct (unhex v); [inversion H; reflexivity | discriminate].
+  Qed.
+
+  (* the record apk-tools writes — lower-case hex of the SHA-1 — is read back as those bytes *)
+  Lemma checksum_of_hex_record recs d :
+    (forall x, In x d -> (x < 256)%N) -> assoc_s pax_checksum_key recs = Some (hex d) ->
+    checksum_from_header recs = SumSome d.
+  Proof.
+    intros Hb A. unfold PkgAuth.checksum_from_header. rewrite A, hex_not_b64_form, (unhex_hex d Hb). reflexivity.
+  Qed.
+End ChecksumFromHeader.
